@@ -16,10 +16,11 @@ if patch:
 try:
     from analysis import facts as F
     from analysis.report import Run
-    from rules import wave2, wave2_nio
+    from rules import wave2, wave2_nio, wave3
     run = Run("W2", "quick", "wave2 clause on its own")
     f = F.load(cfg)
-    getattr(wave2 if hasattr(wave2, fn) else wave2_nio, fn)(run, f, "W2-" + fn)
+    mod = [m for m in (wave2, wave2_nio, wave3) if hasattr(m, fn)][0]
+    getattr(mod, fn)(run, f, "W2-" + fn)
     for v in run.violations:
         print("VIOL", v["key"], "|", v["what"][:220])
     print("instances", {r: run.rules[r]["instances"] for r in run.rules}, "accounting", json.dumps(run.counters.get("path_accounting", {}))[:300])
